@@ -728,6 +728,8 @@ impl AssetExpr {
         match &self.policy {
             Expression::None => None,
             Expression::Bytes(x) => Some(x.as_slice()),
+            // the name of a policy definition lowers to its hash
+            Expression::Hash(x) => Some(x.as_slice()),
             _ => None,
         }
     }
